@@ -505,9 +505,43 @@ class _Random(types.ModuleType):
 NP.random = _Random("numpy.random")
 
 
+def _det_obj(A):
+    n = A.shape[0]
+    if n == 1:
+        return A[0, 0]
+    if n == 2:
+        return A[0, 0] * A[1, 1] - A[0, 1] * A[1, 0]
+    tot = 0
+    for c in range(n):
+        minor = _np.delete(_np.delete(A, 0, axis=0), c, axis=1)
+        tot = tot + ((-1) ** c) * A[0, c] * _det_obj(minor)
+    return tot
+
+
+def _inv_obj(A):
+    n = A.shape[0]
+    d = _det_obj(A)
+    out = _np.empty((n, n), dtype=object)
+    for r in range(n):
+        for c in range(n):
+            minor = _np.delete(_np.delete(A, r, axis=0), c, axis=1)
+            cof = ((-1) ** (r + c)) * (_det_obj(minor) if n > 1 else 1)
+            out[c, r] = cof / d
+    return out
+
+
 class _Linalg(types.ModuleType):
     def __getattr__(self, a):
         real = getattr(_np.linalg, a)
+        if a in ("det", "inv"):
+            def g(A, *args, **kw):
+                if _has_sym(A):
+                    A = _oarr(A)
+                    if A.ndim == 2 and A.shape[0] == A.shape[1] and A.shape[0] <= 4:
+                        return _det_obj(A) if a == "det" else _inv_obj(A)
+                    raise Undecided(f"np.linalg.{a} on a symbolic matrix larger than 4x4")
+                return real(A, *args, **kw)
+            return g
 
         def f(*args, **kw):
             if any(_has_sym(x) for x in args):
